@@ -254,9 +254,12 @@ inline void Sweep::decls_and_regions()
       add_node(st ? "declare_type(+init)" : "declare_type", n, Category_code::Typedecl, [n, np = &nm, tp = &t, def](Ck& c) { c.same("name", &n->name(), static_cast<const Name*>(np)); c.type_is(*n, *tp, "given"); c.opt("initializer", n->initializer(), static_cast<const Expr*>(def)); c.opt("definition", n->definition(), (const Typedecl*)nullptr); });
    }
    {  impl::Warehouse<Type> w; w.push_back(L.int_type()); auto& ft = lex.get_function(lex.get_product(w), L.void_type());
-      for (int st = 0; st < 3; ++st) {
+      for (int st = 0; st < 5; ++st) {
          auto& nm = *P.names[st]; auto* n = reg->declare_fun(nm, ft);
          impl::Mapping* m = nullptr; impl::Parameter_list* pl = nullptr;
+         // the two alternatives of the declaration's data, each also selected while its link is still unset
+         if (st == 3) n->data.emplace<1>(static_cast<impl::Mapping*>(nullptr));
+         if (st == 4) n->data.emplace<0>(static_cast<impl::Parameter_list*>(nullptr));
          if (st == 1) { m = lex.make_mapping(*reg, Mapping_level{ 0 }); m->param(*P.idents[0], L.int_type()); n->data.emplace<1>(m); }
          if (st == 2) { pl = &reg->make_function_morphism(*reg, Mapping_level{ 0 })->inputs; pl->add_member(*P.idents[1], L.int_type()); n->data.emplace<0>(pl); }
          add_node("declare_fun(state " + std::to_string(st) + ")", n, Category_code::Fundecl, [n, np = &nm, fp = &ft, m, pl](Ck& c) {
